@@ -15,7 +15,6 @@ import (
 	"crypto/x509/pkix"
 	"encoding/asn1"
 	"fmt"
-	"io"
 	"math/big"
 	"net"
 	"sort"
@@ -426,11 +425,14 @@ type Proxy struct {
 	blackhole bool
 	refuse    bool
 	closed    bool
+	frozen    bool // relayed data is held back (a silent network), released by Unfreeze or dropped by Cut
+	thaw      *sync.Cond
 	Accepts   atomic.Int32
 }
 
 func NewProxy(l *Log, from, to *Node) (*Proxy, error) {
 	p := &Proxy{L: l, From: from, To: to, conns: map[int][2]net.Conn{}}
+	p.thaw = sync.NewCond(&p.mu)
 	p.Port = FreePort()
 	ln, err := net.Listen("tcp", fmt.Sprintf("127.0.0.1:%d", p.Port))
 	if err != nil {
@@ -484,9 +486,44 @@ func (p *Proxy) loop() {
 			}
 			p.mu.Unlock()
 		}
-		go func() { _, _ = io.Copy(u, c); done() }()
-		go func() { _, _ = io.Copy(c, u); done() }()
+		go func() { p.relay(u, c); done() }()
+		go func() { p.relay(c, u); done() }()
 	}
+}
+
+// relay copies src to dst; while the proxy is frozen what was read is held back.
+func (p *Proxy) relay(dst, src net.Conn) {
+	buf := make([]byte, 32*1024)
+	for {
+		n, err := src.Read(buf)
+		if n > 0 {
+			p.mu.Lock()
+			for p.frozen {
+				p.thaw.Wait()
+			}
+			p.mu.Unlock()
+			if _, werr := dst.Write(buf[:n]); werr != nil {
+				return
+			}
+		}
+		if err != nil {
+			return
+		}
+	}
+}
+
+// Freeze holds all relayed data back (both directions of this proxy) until Unfreeze.
+func (p *Proxy) Freeze() {
+	p.mu.Lock()
+	p.frozen = true
+	p.mu.Unlock()
+}
+
+func (p *Proxy) Unfreeze() {
+	p.mu.Lock()
+	p.frozen = false
+	p.mu.Unlock()
+	p.thaw.Broadcast()
 }
 
 // Live returns the number of TCP connections currently relayed.
